@@ -19,9 +19,10 @@ EXTENDS MC_SigningDone, TLC, Json, CSV, IOUtils
 VARIABLE hist
 gvars == <<vars, hist>>
 
-(* senders: the three seat owners speaking for themselves, an outsider and  *)
-(* the excluded member claiming an included seat                            *)
-GenSenders == { <<1, 1>>, <<2, 2>>, <<3, 3>>, <<0, 1>>, <<3, 2>> }
+(* senders: the three seat owners speaking for themselves (seat 2 is the    *)
+(* excluded one), an outsider and the excluded member claiming an included  *)
+(* seat                                                                     *)
+GenSenders == { <<1, 1>>, <<2, 2>>, <<3, 3>>, <<0, 1>>, <<2, 3>> }
 (* contents: msg, att, end, sig *)
 GenContents == { <<TRUE, TRUE, TimeoutBlock - 1, "A">>,
                  <<TRUE, TRUE, TimeoutBlock, "A">>,
